@@ -24,9 +24,10 @@ VARIABLES l, alarms, cfg,
           epochOf,  \* node -> epoch whose share the node signs with (observed)
           epochs,   \* epoch -> [t, tround, members]
           upN,      \* node -> BOOLEAN
-          healedAt  \* clock (max) at the last Heal/Start event, -1 if none pending
+          healedAt, \* clock (max) at the last Heal/Start event, -1 if none pending
+          reg       \* <<node, epoch>> -> stored head of the node when TransitionNewGroup was registered
 
-tvars == <<l, alarms, cfg, clk, store, got, signed, lastTick, epochOf, epochs, upN, healedAt>>
+tvars == <<l, alarms, cfg, clk, store, got, signed, lastTick, epochOf, epochs, upN, healedAt, reg>>
 
 NodesT == 0..7
 EmptyFn == [x \in {} |-> 0]
@@ -40,9 +41,15 @@ ThrOf(n) == IF epochOf[n] \in DOMAIN epochs THEN epochs[epochOf[n]].t ELSE cfg.t
 
 \* C07: the epoch whose share must sign round r at node n: the latest epoch that n belongs to
 \* and whose transition round is <= r (epoch 0 has transition round 0).
-DueEpoch(n, r) == LET E == {x \in DOMAIN epochs : n \in epochs[x].members /\ epochs[x].tround <= r}
+\* The vault switches when the first beacon of round >= tround-1 is stored AFTER the registration
+\* (TransitionNewGroup); registered with stored head h, the new share therefore signs from
+\* max(tround, h+2) on.  A node started directly with an epoch (joiner, restart) uses it from the start.
+EffT(n, x) == IF x = 0 THEN 0
+              ELSE IF <<n, x>> \in DOMAIN reg
+                     THEN (IF epochs[x].tround > reg[<<n, x>>] + 2 THEN epochs[x].tround ELSE reg[<<n, x>>] + 2)
+                     ELSE epochs[x].tround
+DueEpoch(n, r) == LET E == {x \in DOMAIN epochs : n \in epochs[x].members /\ EffT(n, x) <= r}
                   IN IF E = {} THEN -1 ELSE CHOOSE x \in E : \A y \in E : y <= x
-
 
 Alarm(mon, e, detail) == [mon |-> mon, scenario |-> cfg.scenario, ev |-> e.ev, line |-> l, detail |-> detail]
 If(c, S) == IF c THEN S ELSE {}
@@ -51,7 +58,7 @@ Blank == /\ clk = [n \in NodesT |-> 0] /\ store = [n \in NodesT |-> EmptyFn]
          /\ got = [n \in NodesT |-> {}] /\ signed = [n \in NodesT |-> {}]
          /\ lastTick = [n \in NodesT |-> [round |-> 0, cause |-> "none"]]
          /\ epochOf = [n \in NodesT |-> 0] /\ epochs = EmptyFn /\ upN = [n \in NodesT |-> FALSE]
-         /\ healedAt = -1
+         /\ healedAt = -1 /\ reg = EmptyFn
 
 TraceInit == /\ l = 1 /\ alarms = {} /\ cfg = [scenario |-> "none", period |-> 1, t |-> 1, n |-> 1, chained |-> FALSE, catchup |-> 1]
              /\ Blank
@@ -68,21 +75,21 @@ StepInit(e) ==
   /\ lastTick' = [n \in NodesT |-> [round |-> 0, cause |-> "none"]]
   /\ epochOf' = [n \in NodesT |-> 0]
   /\ epochs' = (0 :> [t |-> e.t, tround |-> 0, members |-> Range(e.group)])
-  /\ upN' = [n \in NodesT |-> FALSE] /\ healedAt' = -1
+  /\ upN' = [n \in NodesT |-> FALSE] /\ healedAt' = -1 /\ reg' = EmptyFn
   /\ alarms' = alarms
 
 StepClock(e) ==
   /\ e.ev = "Clock"
   /\ clk' = [clk EXCEPT ![e.node] = e.now]
   /\ alarms' = alarms
-  /\ Keep(<<cfg, store, got, signed, lastTick, epochOf, epochs, upN, healedAt>>)
+  /\ Keep(<<cfg, store, got, signed, lastTick, epochOf, epochs, upN, healedAt, reg>>)
 
 StepTick(e) ==
   /\ e.ev = "Tick"
   /\ lastTick' = [lastTick EXCEPT ![e.node] = [round |-> e.round, cause |-> "tick"]]
   \* ticker.go: a tick carries the round of the clock
   /\ alarms' = alarms \cup If(e.round > RoundAt(e.clock), {Alarm("TickRound", e, "tick carries a round beyond the clock")})
-  /\ Keep(<<cfg, clk, store, got, signed, epochOf, epochs, upN, healedAt>>)
+  /\ Keep(<<cfg, clk, store, got, signed, epochOf, epochs, upN, healedAt, reg>>)
 
 \* C04: an honest partial for round r leaves the node only at or after TimeOf(r).
 \* The named deviation (F8): the run loop handles a tick of round c when the stored head is already
@@ -96,14 +103,15 @@ StepBcast(e) ==
   /\ e.ev = "Bcast"
   /\ signed' = [signed EXCEPT ![e.node] = @ \cup {e.round}]
   /\ alarms' = alarms \cup If(e.clock < TimeOf(e.round), {Alarm("NoEarlyPartial", e, EarlyDetail(e.node, e.round))})
-  /\ Keep(<<cfg, clk, store, got, lastTick, epochOf, epochs, upN, healedAt>>)
+  /\ Keep(<<cfg, clk, store, got, lastTick, epochOf, epochs, upN, healedAt, reg>>)
 
 StepSend(e) ==
   /\ e.ev = "Send"
   /\ alarms' = alarms \cup If(e.clock < TimeOf(e.round), {Alarm("NoEarlyPartial", e, EarlyDetail(e.from, e.round))})
-                      \cup If("sigEpoch" \in DOMAIN e /\ DueEpoch(e.from, e.round) >= 0 /\ e.sigEpoch # DueEpoch(e.from, e.round),
-                              {Alarm("WrongShareEpoch", e, IF e.sigEpoch < DueEpoch(e.from, e.round) THEN "old share used at or after the transition round" ELSE "new share used before the transition round")})
-  /\ Keep(<<cfg, clk, store, got, signed, lastTick, epochOf, epochs, upN, healedAt>>)
+                      \* (a joiner or restarted node may send new-share partials early: they simply do not count)
+                      \cup If("sigEpoch" \in DOMAIN e /\ e.sigEpoch >= 0 /\ DueEpoch(e.from, e.round) >= 0 /\ e.sigEpoch < DueEpoch(e.from, e.round),
+                              {Alarm("WrongShareEpoch", e, "old share used at or after the transition round")})
+  /\ Keep(<<cfg, clk, store, got, signed, lastTick, epochOf, epochs, upN, healedAt, reg>>)
 
 \* a partial is handed to ProcessPartialBeacon (logged before the call)
 StepDeliver(e) ==
@@ -111,7 +119,7 @@ StepDeliver(e) ==
   /\ got' = IF e.valid /\ e.member /\ ~e.own THEN [got EXCEPT ![e.to] = @ \cup {<<e.round, e.prevd, e.idx, e.epoch>>}] ELSE got
   /\ epochOf' = IF e.epoch >= 0 THEN [epochOf EXCEPT ![e.to] = e.epoch] ELSE epochOf
   /\ alarms' = alarms
-  /\ Keep(<<cfg, clk, store, signed, lastTick, epochs, upN, healedAt>>)
+  /\ Keep(<<cfg, clk, store, signed, lastTick, epochs, upN, healedAt, reg>>)
 
 \* ProcessPartialBeacon returned: what may have reached the aggregator
 StepRecv(e) ==
@@ -125,7 +133,7 @@ StepRecv(e) ==
      IN /\ alarms' = alarms \cup A1 \cup A2 \cup A3 \cup A4 \cup A5
         /\ got' = IF ~acc /\ "idx" \in DOMAIN e THEN [got EXCEPT ![e.to] = {x \in @ : ~(x[1] = e.round /\ x[2] = e.prevd /\ x[3] = e.idx)}] ELSE got
         /\ epochOf' = IF "epoch" \in DOMAIN e /\ e.epoch >= 0 THEN [epochOf EXCEPT ![e.to] = e.epoch] ELSE epochOf
-  /\ Keep(<<cfg, clk, store, signed, lastTick, epochs, upN, healedAt>>)
+  /\ Keep(<<cfg, clk, store, signed, lastTick, epochs, upN, healedAt, reg>>)
 
 \* distinct signers whose partial for exactly (r, prevd) was valid under the epoch that is due for round r
 Signers(n, r, prevd, ep) == {x[3] : x \in {y \in got[n] : y[1] = r /\ (y[2] = prevd \/ ~cfg.chained) /\ y[4] = ep}}
@@ -157,7 +165,7 @@ StepStorePut(e) ==
                     ELSE store
         \* the vault switches when round tround-1 is stored (observed on the next events); drop partial bookkeeping of old rounds
         /\ got' = IF ok THEN [got EXCEPT ![n] = {x \in @ : x[1] > e.round}] ELSE got
-  /\ Keep(<<cfg, clk, signed, lastTick, epochOf, epochs, upN, healedAt>>)
+  /\ Keep(<<cfg, clk, signed, lastTick, epochOf, epochs, upN, healedAt, reg>>)
 
 StepStart(e) ==
   /\ e.ev = "Start"
@@ -169,20 +177,20 @@ StepStart(e) ==
      /\ got' = [got EXCEPT ![e.node] = {}]
      /\ healedAt' = healedAt
   /\ alarms' = alarms
-  /\ Keep(<<cfg, store, lastTick, epochs>>)
+  /\ Keep(<<cfg, store, lastTick, epochs, reg>>)
 
 StepStop(e) ==
   /\ e.ev = "Stop"
   /\ upN' = [upN EXCEPT ![e.node] = FALSE]
   /\ alarms' = alarms
-  /\ Keep(<<cfg, clk, store, got, signed, lastTick, epochOf, epochs, healedAt>>)
+  /\ Keep(<<cfg, clk, store, got, signed, lastTick, epochOf, epochs, healedAt, reg>>)
 
 \* peer sync serving: every item equals what the serving node stored (C01/C11 at network level)
 StepSyncItem(e) ==
   /\ e.ev = "SyncItem"
   /\ alarms' = alarms \cup If(e.round \notin DOMAIN store[e.peer] \/ (e.round \in DOMAIN store[e.peer] /\ store[e.peer][e.round][1] # e.sigd),
                               {Alarm("ServedNotStored", e, "sync stream item differs from the stored beacon")})
-  /\ Keep(<<cfg, clk, store, got, signed, lastTick, epochOf, epochs, upN, healedAt>>)
+  /\ Keep(<<cfg, clk, store, got, signed, lastTick, epochOf, epochs, upN, healedAt, reg>>)
 
 \* full cursor scan of a base store: gap-free 0..head, every round verifies, equals what was put
 StepScan(e) ==
@@ -196,14 +204,14 @@ StepScan(e) ==
          A4 == If(\E k \in DOMAIN rows : k > 1 /\ rows[k][1] <= rows[k - 1][1], {Alarm("ScanOrder", e, "cursor not ascending")})
          A5 == If(cfg.backend # "memdb" /\ DOMAIN st # {} /\ ~(DOMAIN st \subseteq rs), {Alarm("ScanLost", e, "a beacon that was put is missing")})
      IN alarms' = alarms \cup A1 \cup A2 \cup A3 \cup A4 \cup A5
-  /\ Keep(<<cfg, clk, store, got, signed, lastTick, epochOf, epochs, upN, healedAt>>)
+  /\ Keep(<<cfg, clk, store, got, signed, lastTick, epochOf, epochs, upN, healedAt, reg>>)
 
 \* C07: fabricated resharing registered on the nodes
 StepReshare(e) ==
   /\ e.ev = "Reshare"
   /\ epochs' = [x \in (DOMAIN epochs) \cup {e.epoch} |-> IF x = e.epoch THEN [t |-> e.t, tround |-> e.tround, members |-> Range(e.members)] ELSE epochs[x]]
   /\ alarms' = alarms \cup If(~e.samekey, {Alarm("IdentityChanged", e, "distributed public key changed")})
-  /\ Keep(<<cfg, clk, store, got, signed, lastTick, epochOf, upN, healedAt>>)
+  /\ Keep(<<cfg, clk, store, got, signed, lastTick, epochOf, upN, healedAt, reg>>)
 
 \* C05 (finite-trace form): at a quiescent point after the faults healed, with at least a threshold of
 \* up nodes whose clocks have been inside round R for a catch-up budget, every up node stores round R.
@@ -221,29 +229,30 @@ StepQuiesce(e) ==
                                                           /\ e.epochs[n + 1] # DueEpoch(n, e.heads[n + 1] + 1),
                   {Alarm("VaultEpoch", e, "live group/share is not the one due after the stored head")})
      IN alarms' = alarms \cup A1 \cup A2 \cup A3
-  /\ Keep(<<cfg, clk, store, got, signed, lastTick, epochOf, epochs, upN, healedAt>>)
+  /\ Keep(<<cfg, clk, store, got, signed, lastTick, epochOf, epochs, upN, healedAt, reg>>)
 
 \* conformance of a scripted TLC behaviour: the model's heads vs the observed heads
 StepExpect(e) ==
   /\ e.ev = "Expect"
   /\ alarms' = alarms \cup If(e.heads # e.obs, {Alarm("Conformance", e, "heads differ from the model's state")})
-  /\ Keep(<<cfg, clk, store, got, signed, lastTick, epochOf, epochs, upN, healedAt>>)
+  /\ Keep(<<cfg, clk, store, got, signed, lastTick, epochOf, epochs, upN, healedAt, reg>>)
 
 StepTransition(e) ==
   /\ e.ev = "Transition"
   /\ alarms' = alarms
+  /\ reg' = [k \in (DOMAIN reg) \cup {<<e.node, e.epoch>>} |-> IF k = <<e.node, e.epoch>> THEN HeadOf(store[e.node]) ELSE reg[k]]
   /\ Keep(<<cfg, clk, store, got, signed, lastTick, epochOf, epochs, upN, healedAt>>)
 
 StepCatchupFire(e) ==
   /\ e.ev = "CatchupFire"
   /\ lastTick' = [lastTick EXCEPT ![e.node] = [round |-> @.round, cause |-> "catchup"]]
   /\ alarms' = alarms
-  /\ Keep(<<cfg, clk, store, got, signed, epochOf, epochs, upN, healedAt>>)
+  /\ Keep(<<cfg, clk, store, got, signed, epochOf, epochs, upN, healedAt, reg>>)
 
 Other(e) ==
   /\ e.ev \in {"Catchup", "SyncOpen", "Partition", "Heal", "DropAll", "NoSuchMsg", "Parked", "End", "StopBlocked", "SettleTimeout", "Note"}
   /\ alarms' = alarms \cup If(e.ev = "StopBlocked", {Alarm("HandlerDidNotReturn", e, "Stop")})
-  /\ Keep(<<cfg, clk, store, got, signed, lastTick, epochOf, epochs, upN, healedAt>>)
+  /\ Keep(<<cfg, clk, store, got, signed, lastTick, epochOf, epochs, upN, healedAt, reg>>)
 
 TraceNext ==
   /\ l <= Len(TraceLog)
